@@ -10,14 +10,27 @@ THEOREMS = [P + t for t in (
     'spec_layout', 'spec_unpack_pack', 'spec_pack_unpack', 'spec_rejects', 'spec_line_and_index',
     'run2d_nmp_roundtrip', 'run2d_nmp_rejects', 'run2d_nmp_injective',
     'parse_fmt_run2d', 'parse_digits_run2d', 'dec_string_id',
+    'parse_full_fmt', 'parse_full_error', 'parse_full_cases', 'run2d_den_injective', 'specstr_same_id_iff',
+    'specstr_canonical', 'specstr_rejects', 'parse_full_ascii_digits', 'pyInt_none_of_head',
+    'to64_toInt', 'inRM_to64', 'sub_offset_toInt', 'mjd_check', 'objid_cols', 'spec_cols',
+    'specs_is_map', 'objids_refuses_iff', 'specs_refuses_iff',
+    'okAstrombad_table', 'astrombad_rows_are_objid_rows', 'astrombad_iff_objid',
     'packObjidRaw_table', 'objOk_table', 'unpackObjid_table', 'packSpecRaw_table', 'specOk_table', 'unpackSpec_table')]
 RULE = ('field tuples: per-field sweeps with the other fields at both extremes, random in-range tuples, '
         'every boundary +-1, scalar / array / decimal-string conventions, run2d as int / digit string / vN_M_P; '
-        'a case is non-trivial when it reaches the packing or unpacking arithmetic or a range check; distinct = distinct case payloads')
+        'run2d as ANY string (named shapes, a grammar of integer literals with white space / sign / underscores / zero padding / '
+        '12 Unicode digit blocks, version strings with padding and suffixes, 1-2 character edits); columns of every integer '
+        'dtype, same-type and mixed, values in range / just outside / at the type extremes / wrapping under -50000; '
+        'sdss_astrombad range checks; '
+        'a case is non-trivial when it reaches the packing or unpacking arithmetic, a range check or the string parser; distinct = distinct case payloads')
 TRUSTED = ['hand-written model lean/PydlVerif/Model/Ids.lean tied to the code by the I/O correspondence of this run',
-           'numpy string->integer casts (decimal-string IDs)']
-ASSUMPTIONS = ['run2d strings are ASCII and either all digits, or not accepted by Python int() (no blanks, signs or "_" between digits)',
-               'array calls use integer arrays for run2d (string arrays are outside the statement)']
+           'numpy string->integer casts (decimal-string IDs)',
+           'the digit / white-space / digit-limit tables of the model are facts about the running interpreter: regenerated from it '
+           'for every code point on every run and checked equal (Gen/C06Consts.lean), not proved from the Unicode database',
+           'numpy compares an integer array with a Python int exactly, astype(int64/uint64) is sign / zero extension (compared by the cols stream)']
+ASSUMPTIONS = ['run2d strings are str objects without lone surrogates (every other string is in the model: int() first, then the expression)',
+               'array calls use integer arrays for run2d (string arrays are outside the statement)',
+               'integer columns are at most 64 bits wide']
 
 OBJ_RANGES = [('sv', 0, 16), ('rerun', 0, 2**11), ('run', 0, 2**16), ('camcol', 1, 7), ('ff', 0, 2),
               ('field', 0, 2**12), ('obj', 0, 2**16)]
@@ -256,6 +269,308 @@ def _run2d_strings(ctx):
     return out
 
 
+# ---------------------------------------------------------------- extension: every run2d string a caller can write
+ND_ZEROS_SAMPLE = [48, 1632, 1776, 2406, 3664, 65296, 120782, 120822, 130032, 6608, 43216, 69734]
+SPACES = [9, 10, 11, 12, 13, 32, 0x85, 0xA0, 0x1680, 0x2000, 0x2005, 0x200A, 0x2028, 0x2029, 0x202F, 0x205F, 0x3000]
+NOT_SPACES = [0x1C, 0x1F, 0x7F, 0x200B, 0xFEFF, 0x180E, 0x00, 0x08, 0x0E]
+NOT_DIGITS = [0xB2, 0x2460, 0x1369, 0x2170, 0x3007, 0x4E00, 0x2F, 0x3A, 0x65F, 0x66A, 0x1D7CD, 0x1FBFA]
+
+
+def _oracle_den(s):
+    """independent reading of the documentation of int() and of re's \\d (unicodedata + an ASCII-only expression; neither
+    pydl, nor int(), nor the model): ('int', i) | ('nmp', n, m, p) | None"""
+    import re
+    import sys
+    import unicodedata
+
+    def norm(ch):
+        d = unicodedata.decimal(ch, None)
+        return '?' if d is None else str(d)
+
+    def space(ch):
+        return ch in ' \t\n\r\x0b\x0c' if ord(ch) < 128 else ch.isspace()
+    a, b = 0, len(s)
+    while a < b and space(s[a]):
+        a += 1
+    while b > a and space(s[b - 1]):
+        b -= 1
+    t = ''.join(ch if ch in '+-_' else norm(ch) for ch in s[a:b])
+    lim = sys.get_int_max_str_digits()       # documented: a literal with more digits is a ValueError
+    if re.fullmatch(r'[+-]?[0-9]+(_[0-9]+)*', t, re.A) and sum(ch.isdigit() for ch in t) <= lim:
+        sign = -1 if t[0] == '-' else 1
+        v = 0
+        for ch in t.lstrip('+-'):
+            if ch != '_':
+                v = v * 10 + (ord(ch) - 48)
+        return ('int', sign * v)
+    t = ''.join(ch if ch in 'v_' else norm(ch) for ch in s)
+    m = re.match(r'v([0-9]+)_([0-9]+)_([0-9]+)', t, re.A)
+    if m and s[:1] == 'v' and all(len(g) <= lim for g in m.groups()):
+        n, mm, pp = (sum((ord(c) - 48) * 10 ** k for k, c in enumerate(reversed(g))) for g in m.groups())
+        return ('nmp', n, mm, pp)
+    return None
+
+
+def _user_strings(ctx):
+    """(kind, string): the shapes the brief names, a grammar of integer literals and version strings with every
+    decoration int() / \\d accept, and one-character mutations of them"""
+    rng = ctx.rng
+
+    def digits(v, width=0, block=None):
+        z = rng.choice(ND_ZEROS_SAMPLE) if block is None else block
+        return ''.join(chr((z if (block is not None or rng.random() < 0.8) else rng.choice(ND_ZEROS_SAMPLE)) + int(c))
+                       for c in str(v).zfill(width))
+
+    def ws():
+        return ''.join(chr(rng.choice(SPACES)) for _ in range(rng.choice([0, 0, 1, 1, 2, 3])))
+    out = [('named', x) for x in
+           ['v5_7_0', '26', 'v05_007_000', ' 26 ', '+26', '-26', '-0', '+0', '1_000', '1__0', '_1', '1_', '١٢',
+            'v٥_7_0', 'v5_7_0_1', 'V5_7_0', '', '  ', '+ 2', '0x10', '0_7', '007', '\t26\n', '\xa026　', '\x1c26',
+            '99999999999999999999999', '9223372036854775808', '18446744073709551616', '-99999999999999999999999',
+            'v5_7_0\n', 'v5_7_0 ', ' v5_7_0', 'v5_100_0', 'v6_99_99', 'v6_63_83', 'v6_63_84', 'v5_7_٣x', '26.0', '1e3',
+            'v5_7', '2 6', '1\x002', 'v' + '5' * 4301 + '_1_1', '1' * 4301, '1' * 4300, '0' * 4400 + '7', '\xb2', '①',
+            'v5_\xb2_0', '+_1', '++1', '-+1', '1_0_0', 'v5_7_0v5_7_0', '\U0001d7d0\U0001d7d4', '﻿26', '​26', '\x8526',
+            'v5_7_0_', 'v5_7__0', 'v5__7_0', 'v_5_7_0', 'v5_7_0x', 'v-5_7_0', 'v+5_7_0', 'v5_-7_0', 'v 5_7_0', 'v5 _7_0',
+            '16383', '16384', '1_6_3_8_3', '-1', '+16383', ' +16_383 ', '0_0', '00', '-00', 'v5_0_0', 'v05_00_00', 'v6_0_0',
+            'v4_99_99', 'v7_0_0', 'v5_99_99', 'v5_099_0099', 'v5_7_0 26', '26 v5_7_0', '26v5_7_0', 'vv5_7_0', '٣', '+', '-', '_',
+            'v', 'v5', 'v5_', 'v5_7_', '\n', '26\x00', '\x0026', 'v5_7_0\x00']]
+    for _ in range(ctx.n(1500, 60000)):
+        kind = rng.randrange(6)
+        if kind == 0:       # an integer literal with every decoration
+            v = rng.choice([rng.randrange(0, 16384), rng.randrange(0, 40), rng.randrange(16380, 16390), rng.getrandbits(rng.randrange(1, 80))])
+            body = digits(v, rng.choice([0, 0, 3, 6]), rng.choice([48, 48, None]))
+            if rng.random() < 0.4 and len(body) > 1:
+                for _k in range(rng.randrange(1, 3)):
+                    i = rng.randrange(1, len(body))
+                    body = body[:i] + '_' + body[i:]
+            st = ws() + rng.choice(['', '', '+', '-']) + body + ws()
+            out.append(('int-literal', st))
+        elif kind == 1:     # a version string with decorations / suffix
+            n, m, p = rng.choice([5, 5, 6, 6, 4, 7, 15]), rng.randrange(0, 110), rng.randrange(0, 110)
+            blk = rng.choice([48, 48, 48, None])
+            st = 'v' + digits(n, rng.choice([0, 0, 2]), blk) + '_' + digits(m, rng.choice([0, 0, 3]), blk) + '_' + digits(p, rng.choice([0, 0, 3]), blk)
+            st += rng.choice(['', '', '', '_1', ' ', '\n', 'x', '-extra', '.fits', '_', chr(rng.choice(NOT_DIGITS))])
+            out.append(('version', st))
+        else:               # one or two character edits of a good string
+            base = rng.choice(['v5_7_0', 'v6_12_34', '26', '1_000', ' 700 ', '+16383', 'v5_13_2', '٧٠٠'])
+            alphabet = [ord(c) for c in 'vV_+- 0159x.'] + SPACES + NOT_SPACES + NOT_DIGITS + [z + rng.randrange(10) for z in ND_ZEROS_SAMPLE]
+            st = base
+            for _k in range(rng.choice([1, 1, 2])):
+                i = rng.randrange(len(st) + 1)
+                op = rng.randrange(3)
+                ch = chr(rng.choice(alphabet))
+                st = st[:i] + ch + st[i:] if op == 0 else st[:i] + st[i + 1:] if op == 1 else st[:i] + ch + st[i + 1:]
+            out.append(('edit', st))
+    return out
+
+
+def _features(s):
+    f = []
+    if s and s != s.strip():
+        f.append('ws')
+    if any(c in s for c in '+-'):
+        f.append('sign')
+    if '_' in s and not s.startswith('v'):
+        f.append('underscore')
+    if any(ord(c) > 127 for c in s):
+        f.append('non-ascii')
+    return '+'.join(f) or 'plain'
+
+
+def _run2d_user_strings(ctx, strings=None):
+    """stream `specstr`: sdss_specobjid(plate, fiber, mjd, <any string>) against packSpecStr; the oracle reads the string by
+    the documentation of int() / \\d on its own and demands the documented layout, a ValueError, the canonical string
+    from the unpacker and the same ID when that canonical string is packed again"""
+    rng = ctx.rng
+    strings = strings if strings is not None else _user_strings(ctx)
+    cases = []
+    for kind, st in strings:
+        t = rng.choice([[4055, 408, 55359, 0, 0], [rng.randrange(a, b) for _, a, b in SPEC_RANGES]])
+        c = {'stream': 'specstr', 'kind': kind, 'plate': t[0], 'fiber': t[1], 'mjd': t[2], 'cs': [ord(ch) for ch in st]}
+        mode = rng.randrange(8)
+        if mode == 0:
+            c['line'] = t[4]
+        elif mode == 1:
+            c['index'] = t[4]
+        elif mode == 2 and kind != 'named':
+            c['line'], c['index'] = t[4], 0
+        cases.append(c)
+    lines = [dict({'p': 'C06', 'op': 'specstr', 'line': None, 'index': None}, **{k: v for k, v in c.items() if k not in ('stream', 'kind')}) for c in cases]
+    lines2 = [{'p': 'C06', 'op': 'run2dfull', 'cs': c['cs']} for c in cases]
+    model = core.driver_parallel(lines)
+    model2 = core.driver_parallel(lines2)
+    for c, m, m2 in zip(cases, model, model2):
+        st = ''.join(chr(x) for x in c['cs'])
+        impl = _impl_specli(dict(c, run2d=st))
+        ctx.seen(c)
+        ctx.count('specstr:%s:den-%s:%s' % (c['kind'], m2['den'], 'err:' + impl['err'] if 'err' in impl else 'ok' if 'ok' in impl else 'other'))
+        ctx.count('specstr-features:' + _features(st) + (':accepted' if 'ok' in impl else ':refused'))
+        if impl != m:
+            ctx.disagree('specstr', c, impl, m)
+        den = _oracle_den(st)
+        if (den[0] if den else 'none') != m2['den']:
+            # the model and the independent reading of the string differ: a broken tie, reported as a disagreement
+            ctx.disagree('specstr-denotation', c, {'oracle-den': den}, m2)
+        if den is None:
+            r2v = None
+        elif den[0] == 'int':
+            r2v = den[1]
+        else:
+            r2v = (den[1] - 5) * 10000 + den[2] * 100 + den[3] if (5 <= den[1] <= 6 and den[2] <= 99 and den[3] <= 99) else None
+        mr = m2['r'].get('ok') if isinstance(m2.get('r'), dict) else None
+        if (r2v if r2v is None or abs(r2v) < 2**70 else 'huge') != mr:
+            ctx.disagree('specstr-value', c, {'oracle-run2d': r2v if r2v is None or abs(r2v) < 2**70 else 'huge'}, m2)
+        lv = c.get('line', c.get('index', 0))
+        want = None
+        if not ('line' in c and 'index' in c) and r2v is not None:
+            want = _layout([c['plate'], c['fiber'], c['mjd'], r2v, lv], SPEC_RANGES, SPEC_SHIFT)
+        one = dict(c)
+        if want is None:
+            if impl != {'err': 'ValueError'}:
+                ctx.violate('specstr:not-refused-with-ValueError', 'run2d string %r: expected ValueError, got %s' % (st, impl), one)
+            continue
+        if impl == {'err': 'ValueError'} and not (st.isascii() and _parse_run2d_oracle(st) is not None):
+            # the statement names the plain-digit and the vN_M_P form; refusing a DECORATED spelling (white space, sign,
+            # underscores, non-ASCII digits) with ValueError breaks no clause of it.  It still differs from the model:
+            # reported above as a disagreement, not as a violation of the property.
+            ctx.count('specstr:decorated-spelling-refused')
+            continue
+        if impl != {'ok': want}:
+            ctx.violate('specstr:layout', 'run2d string %r (denotes %s): got %s, documented layout %s' % (st, den, impl, want), one)
+            continue
+        back = _impl_unspec([want], False)[0]
+        canon = 'v%d_%d_%d' % (r2v // 10000 + 5, (r2v % 10000) // 100, r2v % 100)
+        if back['f'] != [c['plate'], c['fiber'], c['mjd'], r2v, lv] or back['s'] != canon:
+            ctx.violate('specstr:roundtrip', 'run2d string %r packed, unpacked as %s (canonical %s)' % (st, back, canon), one)
+        elif m2.get('canon') != canon:
+            ctx.disagree('specstr-canon', c, canon, m2.get('canon'))
+        else:
+            again = _impl_specli(dict(c, run2d=back['s']))
+            if again != impl:
+                ctx.violate('specstr:canonical-repack', 'run2d %r -> ID %s, canonical string %r -> %s' % (st, impl, back['s'], again), one)
+
+
+# ---------------------------------------------------------------- extension: columns of every integer type, mixed
+DTYPES = ['int8', 'uint8', 'int16', 'uint16', 'int32', 'uint32', 'int64', 'uint64']
+
+
+def _impl_cols(kind, dts, rows):
+    from pydl.pydlutils.sdss import sdss_objid, sdss_specobjid
+    cols = [np.array([r[k] for r in rows], dtype=np.dtype(dt)) for k, dt in enumerate(dts)]
+    try:
+        if kind == 'objid':
+            r = sdss_objid(cols[2], cols[3], cols[5], cols[6], rerun=cols[1], skyversion=cols[0], firstfield=cols[4])
+        else:
+            r = sdss_specobjid(cols[0], cols[1], cols[2], cols[3], line=cols[4])
+        return {'ok': [int(x) % 2**64 for x in np.atleast_1d(r)]}
+    except Exception as e:
+        return {'err': core.exc_kind(e)}
+
+
+def _cols(ctx, only=None):
+    """stream `cols`: every column in its own integer type (8/16/32/64 bits, signed or not), values anywhere in the type
+    (in range, just outside, the type's extremes); model = packObjidCols / packSpecCols on BitVec, oracle = the documented
+    layout of the NUMBERS the elements denote"""
+    rng = ctx.rng
+    cases = []
+    if only is not None:
+        cases = [only]
+    for kind, ranges in ([] if only is not None else [('objid', OBJ_RANGES), ('spec', SPEC_RANGES)]):
+        for it in range(ctx.n(700, 20000)):
+            mode = it % 4
+            dts = [rng.choice(DTYPES)] * len(ranges) if mode == 0 else [rng.choice(DTYPES) for _ in ranges]
+            rows = []
+            for _ in range(rng.choice([1, 1, 2, 5])):
+                row = []
+                for (name, a, b), dt in zip(ranges, dts):
+                    info = np.iinfo(np.dtype(dt))
+                    pool = [v for v in (a, b - 1, (a + b) // 2) if info.min <= v <= info.max]
+                    if mode == 3 or not pool or rng.random() < (0.08 if mode != 2 else 0.0):
+                        # anything the type can hold: extremes, just outside the range, values that wrap when 50000 is removed
+                        pool2 = [info.min, info.max, a - 1, b, 0, 100, 847, 848, 15535, 15536, 32767, 49999, 65535, b + 50000, rng.randrange(info.min, info.max + 1)]
+                        pool2 = [v for v in pool2 if info.min <= v <= info.max]
+                        row.append(rng.choice(pool2))
+                    else:
+                        row.append(rng.choice(pool + [rng.randrange(max(a, info.min), min(b - 1, info.max) + 1)] * 3))
+                rows.append(row)
+            cases.append({'stream': 'cols', 'kind': kind, 'dtypes': dts, 'rows': rows})
+    lines = [{'p': 'C06', 'op': 'cols', 'kind': c['kind'], 'rows': c['rows'],
+              'types': [[0 if dt.startswith('u') else 1, np.dtype(dt).itemsize * 8] for dt in c['dtypes']]} for c in cases]
+    model = core.driver_parallel(lines)
+    for c, m in zip(cases, model):
+        impl = _impl_cols(c['kind'], c['dtypes'], c['rows'])
+        ranges, shift = (OBJ_RANGES, OBJ_SHIFT) if c['kind'] == 'objid' else (SPEC_RANGES, SPEC_SHIFT)
+        want = [_layout(r, ranges, shift) for r in c['rows']]
+        bad = any(w is None for w in want)
+        ctx.seen(c)
+        ctx.count('cols:%s:%s:%s' % (c['kind'], 'same-type' if len(set(c['dtypes'])) == 1 else 'mixed', 'refused' if 'err' in impl else 'ok'))
+        for dt in set(c['dtypes']):
+            ctx.count('cols-type:%s:%s' % (c['kind'], dt))
+        if impl != m:
+            ctx.disagree('cols', c, impl, m)
+        if bad:
+            if impl != {'err': 'ValueError'}:
+                one = _min_cols(c, ranges, shift)
+                ctx.violate('cols:%s:out-of-range-not-ValueError:%s' % (c['kind'], impl.get('err', 'accepted')),
+                            'out-of-range field (column types %s) not refused with ValueError: got %s' % (one['dtypes'], _impl_cols(one['kind'], one['dtypes'], one['rows'])), one)
+        elif impl != {'ok': want}:
+            ctx.violate('cols:%s:layout' % c['kind'], 'column types %s: got %s, documented layout %s' % (c['dtypes'], impl, want), c)
+
+
+def _min_cols(c, ranges, shift):
+    for r in c['rows']:
+        if _layout(r, ranges, shift) is None and _impl_cols(c['kind'], c['dtypes'], [r]) != {'err': 'ValueError'}:
+            return dict(c, rows=[r])
+    return c
+
+
+# ---------------------------------------------------------------- extension: the other function that range-checks objID fields
+def _astrombad(ctx):
+    """stream `astrombad`: sdss_astrombad(run, camcol, field) refuses exactly what okAstrombad refuses - and (real code only)
+    exactly what sdss_objid(run, camcol, field, 0) refuses: the two functions agree on which identifiers exist.  The bad-field
+    list is an empty table (no file, no network): only the range checks in front of it are exercised."""
+    from pydl.pydlutils import sdss as S
+    rng = ctx.rng
+    rows = []
+    for name, a, b in (('run', 0, 2**16), ('camcol', 1, 7), ('field', 0, 2**12)):
+        k = ['run', 'camcol', 'field'].index(name)
+        for v in [a - 1, a, a + 1, b - 1, b, b + 1, -1, 0, 2**31, -2**40, rng.randrange(a, b)]:
+            for base in ([0, 1, 0], [2**16 - 1, 6, 2**12 - 1], [rng.randrange(0, 2**16), rng.randrange(1, 7), rng.randrange(0, 2**12)]):
+                r = list(base)
+                r[k] = v
+                rows.append(r)
+    for _ in range(ctx.n(300, 5000)):
+        rows.append([rng.randrange(-2, 2**16 + 2), rng.randrange(0, 8), rng.randrange(-2, 2**12 + 2)])
+    model = core.driver([{'p': 'C06', 'op': 'astrombad', 'rows': rows}])[0]
+    saved = S.opbadfields
+    S.opbadfields = np.zeros(0, dtype=[('run', 'i4'), ('firstfield', 'i4'), ('lastfield', 'i4')])
+    try:
+        for r, m in zip(rows, model):
+            c = {'stream': 'astrombad', 'row': r}
+            outs = []
+            for arr in (False, True):
+                try:
+                    args = [np.array([v], dtype=np.int64) for v in r] if arr else r
+                    S.sdss_astrombad(*args)
+                    outs.append(True)
+                except Exception as e:
+                    outs.append(core.exc_kind(e))
+            try:
+                S.sdss_objid(r[0], r[1], r[2], 0)
+                packable = True
+            except Exception as e:
+                packable = core.exc_kind(e)
+            ctx.seen(c)
+            ctx.count('astrombad:' + ('accepted' if outs[0] is True else 'refused:' + str(outs[0])))
+            want = True if m else 'ValueError'
+            if outs != [want, want]:
+                ctx.disagree('astrombad', c, outs, want)
+            if packable != outs[0]:
+                ctx.disagree('astrombad-vs-objid', c, outs[0], {'sdss_objid': packable})
+    finally:
+        S.opbadfields = saved
+
+
 # ---------------------------------------------------------------- the check
 def _regenerate(ctx):
     """translator: constants of the four functions -> Gen/C06Consts.lean, re-checked against the model's tables"""
@@ -297,11 +612,16 @@ def _empty(ctx):
 def run(ctx):
     _regenerate(ctx)
     core.audit(ctx, LEAN_MODULES, THEOREMS)
+    # one sequential call first: when the driver executable has to be relinked, the parallel calls below would race for it
+    core.driver([{'p': 'C06', 'op': 'run2d', 's': '0'}])
     _objid(ctx)
     _unobjid(ctx)
     _spec(ctx)
     _unspec(ctx)
     _empty(ctx)
+    _run2d_user_strings(ctx)
+    _cols(ctx)
+    _astrombad(ctx)
 
 
 def _objid(ctx, tuples=None):
@@ -449,12 +769,15 @@ def _spec(ctx):
         if blk:
             acases.append({'stream': 'spec', 'kind': 'array-' + dt, 'dtype': dt, 'f': blk})
     model = core.driver_parallel([{'p': 'C06', 'op': 'spec', 'f': c['f']} for c in acases])
-    for c, m in zip(acases, model):
+    model_any = core.driver_parallel([{'p': 'C06', 'op': 'specs', 'f': c['f']} for c in acases])     # packSpecs: `.any()` per column
+    for c, m, m_any in zip(acases, model, model_any):
         impl = _impl_spec_array(c['f'], c.get('dtype', 'int64'))
         ctx.seen(c)
         ctx.count('spec:' + c['kind'] + (':err' if 'err' in impl else ':ok'))
         if impl != m:
             ctx.disagree('spec-array', c, impl, m)
+        if impl != m_any:
+            ctx.disagree('spec-array-any', c, impl, m_any)
         want = [_layout(t, SPEC_RANGES, SPEC_SHIFT) for t in c['f']]
         if any(w is None for w in want):
             if impl != {'err': 'ValueError'}:
@@ -505,13 +828,26 @@ def replay(ctx, case):
         _empty(ctx)
     elif s == 'objid':
         _objid(ctx, [(case.get('kind', 'replay'), t) for t in case['f']])
+    elif s == 'cols':
+        _cols(ctx, case)
+    elif s == 'specstr':
+        _run2d_user_strings(ctx, [(case.get('kind', 'replay'), ''.join(chr(x) for x in case['cs']))])
     else:
         run(ctx)
 
 LEVEL_TEXT = ('Machine-checked Lean 4 theorems over an executable model of the four ID functions: documented bit layout, '
               'pack/unpack bijection for objID (bit 63 clear, camcol 1..6) and specObjID (all 64-bit values), refusal of every '
-              'out-of-range field, array = map of scalar, vN_M_P formula inverse and injectivity - for all field tuples, no enumeration. '
+              'out-of-range field, array = map of scalar for both functions and "the array call raises iff some element would", '
+              'vN_M_P formula inverse and injectivity - for all field tuples, no enumeration. '
+              'Text level for EVERY run2d string (int() with white space, sign, underscores, all Unicode decimal digits, digit limit; then the '
+              'prefix expression with Unicode \\d): what an accepted string denotes, same ID iff same number, pack(s) = pack(canonical string of the unpacker). '
+              'Fixed-width level: for columns of any integer width <= 64, signed or not, mixed, the machine path (casts, wrapping '
+              'MJD offset, 64-bit shifts) is proved equal to the path on the numbers. '
               'The model is tied to /repo on every run by I/O correspondence (per-field sweeps, boundaries, random tuples, '
-              'scalar/array/string conventions) and an independent bit-string oracle.')
+              'scalar/array/string conventions, arbitrary strings, all dtypes) and independent bit-string and string oracles.')
 LEVEL_NOTE = ('Trusted: Lean kernel, axioms propext/Classical.choice/Quot.sound at most, the hand-written model (validated only by the '
-              'correspondence sample), numpy string->int casts. The text level is proved for the strings the library itself produces (vN_M_P rebuilt by the unpacker, decimal digits); arbitrary user strings (leading zeros, suffixes) are modelled and compared. String arrays for run2d are outside the statement.')
+              'correspondence sample), numpy string->int casts and numpy cast / comparison semantics (compared). The text level is now proved for '
+              'every string a caller can write (str without lone surrogates), relative to three interpreter tables (decimal digits, white space of '
+              'int(), digit limit) that are regenerated from the running interpreter on every run. Nothing is _partial. '
+              'String arrays for run2d are outside the statement. No code outside the four functions decodes an ID; the one other function that '
+              'range-checks ID fields (sdss_astrombad) is proved and compared consistent.')
